@@ -207,8 +207,8 @@ PROPS = {
             regress("C10"),
             {"run": "^TestC10A$", "quick": 3000, "thorough": 8000},
             {"run": "^TestC10B$", "quick": 3000, "thorough": 8000},
-            {"run": "^TestC10C$", "quick": 500, "thorough": 3000},
-            {"run": "^TestC10Window$", "quick": 60, "thorough": 600},
+            {"run": "^TestC10C$", "quick": 500, "thorough": 1500},
+            {"run": "^TestC10Window$", "quick": 60, "thorough": 150},
             {"run": "^TestC10Many$", "quick": 1, "thorough": 1, "single": True, "rapid": False},
         ],
     },
